@@ -189,11 +189,32 @@ var seedPrograms = []string{
 	"$x = $a ?? 1;\n$y = $a ? 1 : 2;\n$z = !$a && ($b || $c);\n$o?->p;\n$a[] = 1;\n$a[0][1] = 2;\n",
 }
 
+// constructSnippets: one small source per statement parser the corpus exercises rarely; enumerated
+// completely (every token-boundary prefix, deletion and duplication, both modes) in both tiers.
+var constructSnippets = []string{
+	"trait T { public $p = 1; function foo() { return 1; } function bar() { return 2; } }\ntrait U { function foo() { return 3; } }\nclass A { use T, U { T::foo insteadof U; U::foo as ufoo; bar as protected pbar; } }\n$a = new A(); echo $a->foo(), $a->ufoo();\n",
+	"interface I { const C = 1; function m(int $a, ?string $b = null): int; }\ninterface J extends I { }\nabstract class B implements J { abstract function n(); function m(int $a, ?string $b = null): int { return self::C; } }\nfinal class D extends B { function n() { return parent::m(1); } }\n",
+	"enum Suit: string { case Hearts = 'H'; case Spades = 'S'; function label() { return $this->value; } }\necho Suit::Hearts->label();\n",
+	"namespace App\\Models;\nuse Foo\\Bar as Baz;\nuse function Foo\\helper;\nconst LIMIT = 10;\nclass User { const A = 1; public static $count = 0; public function __construct(private int $id, protected ?string $name = null) { static::$count++; } }\n",
+	"#[Attr(name: 'x', flags: 3)]\nclass Svc { #[Route('/a', methods: ['GET'])] public function act(#[Inject] $dep) { return $dep; } }\n",
+	"function gen() { yield 1; yield 'k' => 2; yield from [3, 4]; return 5; }\nforeach (gen() as $k => $v) { echo $k, $v; }\n",
+	"$x = new class(1) extends Exception implements Countable { function count(): int { return 0; } };\n$y = clone $x;\necho $y instanceof Exception;\n",
+	"declare(strict_types=1);\nglobal $g;\nstatic $s = 0;\nunset($a[0], $b);\necho isset($a['k'], $c) ? 1 : 0;\necho empty($a);\nlist($p, $q) = [1, 2];\n[$r, [$t]] = [1, [2]];\n",
+	"goto end;\necho 1;\nend:\necho 2;\ninclude 'a.php';\nrequire_once __DIR__ . '/b.php';\necho __LINE__, __FILE__, __FUNCTION__;\nprint 'x';\nexit(0);\n",
+	"$s = <<<EOT\nline {$a['k']} and {$o->p->q} and ${v}\n  EOT;\n$n = <<<'RAW'\nraw $a\nRAW;\n$t = \"esc \\\" \\n \\x41 \\u{1F600} $a[0] $o->p\";\n",
+	"$r = 1..5;\n$sl = $arr[1..3];\n$v = $a <=> $b;\n$w = $a ** 2 % 3;\n$u = (int)$a + (string)$b . (bool)$c;\n$q = $a?->b?->c ?? $d ?: $e;\n$a ??= 1; $b .= 'x'; $c <<= 2; $d **= 2;\n$i = $a instanceof A && !$b like C;\n",
+	"$f = static fn(int ...$xs): int => array_sum($xs);\n$g = function &(array &$a, callable $c = null) use (&$f, $x): ?int { return $c ? $c(...$a) : null; };\necho $f(1, 2), strlen(...)('ab');\n",
+	"for ($i = 0, $j = 9; $i < $j; $i++, $j--) { if ($i % 2) continue; echo $i; }\nfor ($v in $list) { echo $v; }\nforeach ($m as ['a' => $x, 'b' => $y]) { break 1; }\nwhile (true): break; endwhile;\nif ($a): echo 1; elseif ($b): echo 2; else: echo 3; endif;\n",
+	"switch (true) { case $a > 1: case $a < -1: echo 'big'; break; default: echo 'small'; }\n$m = match(true) { $a > 1, $a < -1 => 'big', default => throw new Exception('none') };\ntry { f(); } catch (A | B $e) { } catch (Throwable) { } finally { }\n",
+	"<div class=\"a\" id={$id}>\n  <span>{$name}</span>\n  <?php if ($a): ?><b>yes</b><?php else: ?><i>no</i><?php endif; ?>\n  <ul><li for=\"$x in $xs\">{$x}</li></ul>\n</div>\n<?= $a ?>\n",
+	"class P { function __get($n) { return 1; } function __call($n, $a) { return 2; } static function __callStatic($n, $a) { return 3; } function __toString() { return 'p'; } function __invoke() { return 4; } }\n$p = new P; echo $p->x, $p->y(), P::z(), $p(), \"$p\", $p::class, $p->{'dyn'}, $p::{'st'}();\n",
+}
+
 func TestC01(t *testing.T) {
 	cfg := sb.LoadConfig("C01")
 	rec := sb.NewRec(cfg)
 	defer rec.Flush()
-	rec.R.Rule = "inputs: (a) token-boundary prefixes, single-token deletions and duplications and byte prefixes of the last 64 bytes of every corpus file (tests/**, examples/** .php in template mode, .zy in plain mode); (b) rapid-drawn token/byte mutations of seed programs and generated programs, both modes, accepted mutants of generated programs are also run; (c) nesting bombs. Non-trivial = input differs from the intact source, counted distinct by sha256 of (mode, bytes)."
+	rec.R.Rule = "inputs: (a0) every token-boundary prefix, single-token deletion and duplication of 16 construct snippets (traits with adaptation blocks, enums, attributes, generators, anonymous classes, heredocs, ranges, alternative syntax, HTML templates, magic methods ...) in both modes, in both tiers; (a) token-boundary prefixes, single-token deletions and duplications and byte prefixes of the last 64 bytes of every corpus file (tests/**, examples/** .php in template mode, .zy in plain mode); (b) rapid-drawn token/byte mutations of seed programs and generated programs, both modes, accepted mutants of generated programs are also run; (c) nesting bombs. Non-trivial = input differs from the intact source, counted distinct by sha256 of (mode, bytes)."
 	pool := c01Pool(rec)
 	defer pool.Close()
 	dl := time.Now().Add(budget(cfg, 55, 800))
@@ -225,6 +246,7 @@ func TestC01(t *testing.T) {
 	// (c) nesting bombs
 	c01Bombs(cfg, rec, pool)
 	// (a) corpus enumeration
+	c01Snippets(cfg, rec, pool)
 	complete := c01Corpus(cfg, rec, pool, dl)
 	// (b) rapid mutants
 	total := 3000
@@ -308,6 +330,44 @@ func clipBomb(s string) string { return s }
 
 // c01Corpus enumerates the corpus-derived inputs. Returns true when the whole
 // enumeration of this shard was visited.
+// c01Snippets enumerates the construct snippets completely (no sampling in the quick tier).
+func c01Snippets(cfg sb.Config, rec *sb.Rec, pool *sb.Pool) {
+	idx := 0
+	for si, src0 := range constructSnippets {
+		for _, tmpl := range []bool{false, true} {
+			src := src0
+			if tmpl {
+				src = "<?php\n" + src0
+			}
+			rep := pool.Exec(&sb.Req{Kind: "tokens", Src: src, Tmpl: tmpl})
+			var spans []tokSpan
+			if rep.Outcome == sb.OK {
+				json.Unmarshal(rep.Data, &spans)
+			}
+			try := func(kind, s string) {
+				idx++
+				if idx%cfg.NShards != cfg.Shard {
+					return
+				}
+				rec.NonTrivial(fmt.Sprint(tmpl), s)
+				rec.Label("snippet."+kind, "")
+				c := c01Case{Src: s, Tmpl: tmpl, Why: fmt.Sprintf("%s of construct snippet %d", kind, si)}
+				if fl := c01Judge(pool, rec, c); fl != nil {
+					rec.Fail(fl.Key, fl.Detail, fl.Case)
+				}
+			}
+			try("intact", src)
+			for _, sp := range spans {
+				try("prefix", src[:sp.S])
+				if sp.E > sp.S {
+					try("delete", src[:sp.S]+src[sp.E:])
+					try("duplic", src[:sp.E]+src[sp.S:sp.E]+src[sp.E:])
+				}
+			}
+		}
+	}
+}
+
 func c01Corpus(cfg sb.Config, rec *sb.Rec, pool *sb.Pool, dl time.Time) bool {
 	files := corpusFiles()
 	rec.R.Extra["corpus_files"] = len(files)
